@@ -117,7 +117,8 @@ RaOk(enable, method, steps, i, issued) ==
 ---------------------------------------------------------------------------
 (* (c) kick, black-list                                                                          *)
 (* the kicked session is the one named by the id: it is disconnected (an HLS session: its        *)
-(* session id stops being served); an unknown id disconnects nothing                             *)
+(* session id stops being served); an unknown id disconnects nothing - also one that is a prefix *)
+(* of the id of a session of the stream                                                          *)
 KickPds == {"rtmp_pub", "rtmp_sub", "flv_sub", "ts_sub", "rtsp_pub", "rtsp_sub", "hls_sub"}
 KickOk(which, had, ok, closed) ==
   /\ had
@@ -132,7 +133,9 @@ BlMay(tbl, ip, now) ==      \* set of allowed answers to "is content served?"
   IF ip \notin DOMAIN tbl THEN {TRUE}
   ELSE IF now < tbl[ip] THEN {FALSE} ELSE IF now > tbl[ip] THEN {TRUE} ELSE BOOLEAN
 BlIps == {"a", "b", "c"}
-BlFams == {"v4", "v6"}
+\* v6x: listed in the expanded spelling of the IPv6 address; v4m: an IPv4 peer listed in IPv4-mapped spelling (::ffff:a.b.c.d) -
+\* other spellings of the same address
+BlFams == {"v4", "v6", "v6x", "v4m"}
 BlTbl(dur) == BlAdd(BlAdd(<<>>, "a", 0, dur), "c", 0, dur + 5)
 BlProbeOk(dur, p) ==
   /\ p.ip \in BlIps
